@@ -79,6 +79,18 @@ impl Vt {
     }
 }
 
+#[cfg(avt_verif)]
+impl Vt {
+    // verification hook: complete internal state (parser + terminal)
+    pub fn verif_state(&self) -> String {
+        let mut out = String::new();
+        self.parser.verif_state(&mut out);
+        self.terminal.verif_state(&mut out);
+
+        out
+    }
+}
+
 pub struct Builder {
     size: (usize, usize),
     scrollback_limit: Option<usize>,
